@@ -250,7 +250,7 @@ func (w *world) runGroup(g *group) []caseOut {
 		res := w.add(toFilesTop(g.Tree.Top), p, v, f, g.Via)
 		vs, outcome := w.check(ci, res)
 		nb := len(res.rec.sizes)
-		flaky := w.confirm(ci, vs, func() *result {
+		vs, flaky := w.confirm(ci, vs, func() *result {
 			return w.add(toFilesTop(g.Tree.Top), w.buildParams(g.Core, v, shardSize), v, f, g.Via)
 		})
 		o := caseOut{flaky: flaky, sig: sig(ci, outcome, nb), nontrivial: nb >= 2 || res.rec.injected > 0, outcome: v.mode() + ":" + outcome, vios: vs}
@@ -663,22 +663,19 @@ func TestMultipartAndHidden(t *testing.T) {
 // confirm re-executes a violating case 4 more times (the first time each key is
 // seen by this worker); a violation that does not reproduce 5/5 is a broken
 // check, never a verdict.
-func (w *world) confirm(ci *caseInfo, vs []vio, rerun func() *result) string {
+// confirm re-executes a case whose violations include a key not seen before
+// and keeps the violations whose key shows up in every execution. A key that
+// only shows up sometimes (which of several blocks is affected can depend on
+// map iteration order inside the code under test) is dropped and noted; when
+// nothing reproduces the check itself is at fault (reported as broken).
+func (w *world) confirm(ci *caseInfo, vs []vio, rerun func() *result) ([]vio, string) {
 	if len(vs) == 0 {
-		return ""
+		return vs, ""
 	}
 	if w.confirmed == nil {
 		w.confirmed = map[string]bool{}
 	}
 	fresh := false
-	keys := func(l []vio) string {
-		var k []string
-		for _, v := range l {
-			k = append(k, v.Key)
-		}
-		sort.Strings(k)
-		return strings.Join(k, "\n")
-	}
 	for _, v := range vs {
 		if !w.confirmed[v.Key] {
 			fresh = true
@@ -686,16 +683,41 @@ func (w *world) confirm(ci *caseInfo, vs []vio, rerun func() *result) string {
 		}
 	}
 	if !fresh {
-		return ""
+		return vs, ""
 	}
-	want := keys(vs)
+	every := map[string]bool{}
+	for _, v := range vs {
+		every[v.Key] = true
+	}
 	for i := 0; i < 4; i++ {
 		vs2, _ := w.check(ci, rerun())
-		if got := keys(vs2); got != want {
-			return fmt.Sprintf("violation did not reproduce on re-execution %d: first %q then %q (input %v)", i+2, want, got, ci.input())
+		got := map[string]bool{}
+		for _, v := range vs2 {
+			got[v.Key] = true
+		}
+		for k := range every {
+			if !got[k] {
+				delete(every, k)
+			}
 		}
 	}
-	return ""
+	var kept []vio
+	var dropped []string
+	for _, v := range vs {
+		if every[v.Key] {
+			kept = append(kept, v)
+		} else {
+			dropped = append(dropped, v.Key)
+			w.confirmed[v.Key] = false
+		}
+	}
+	if len(kept) == 0 {
+		return nil, fmt.Sprintf("no violation of this case reproduced on 4 re-executions: %v (input %v)", dropped, ci.input())
+	}
+	if len(dropped) > 0 {
+		R.NotExhaustive(fmt.Sprintf("symptoms that did not show up in every execution of a violating case were dropped: %v", dropped))
+	}
+	return kept, ""
 }
 
 func replayMode() bool { return os.Getenv("VERIF_REPLAY") != "" }
